@@ -131,6 +131,30 @@ Theorem C01_versatiles_header_codes :
 Proof. exact hdr_accepts_known_codes. Qed.
 Print Assumptions C01_versatiles_header_codes.
 
+(* versatiles, the byte-level read path of one block: a block written by write_block (tiles appended
+   in stream order, small payloads stored once) and stored anywhere in a file, followed by its
+   brotli-compressed tile index, is read back slot by slot - index range, decompression, 12-byte
+   entries, shift by the block's data offset, entry-count check, range read - for any lawful codec *)
+From VT Require Import Model.Crash Model.VTFile Proofs.VTFileProofs.
+Theorem C01_versatiles_block_in_file :
+  forall (brotli : list N -> list N) (unb : list N -> option (list N)), (forall b, unb (brotli b) = Some b) ->
+  forall slots pre post slot,
+    let st := write_block slots in
+    let cidx := brotli (tidx_as_blob (w_index st)) in
+    let file := pre ++ w_data st ++ cidx ++ post in
+    let toff := N.of_nat (length pre) in
+    (N.of_nat (length file) <= u64_max)%N -> Forall (fun p => (snd p <= u32_max)%N) (w_index st) -> (slot < length slots)%nat ->
+    read_tile unb file toff (toff + N.of_nat (length (w_data st))) (N.of_nat (length cidx)) (length slots) slot =
+      Ok (match nth_error slots slot with
+          | Some (Some d) => if (N.of_nat (length d) =? 0)%N then None else Some d
+          | _ => None
+          end).
+Proof.
+  intros brotli unb Hc slots pre post slot st cidx file toff Hf Hl Hs.
+  rewrite <- (block_roundtrip slots slot). exact (block_in_file brotli unb Hc slots pre post slot Hf Hl Hs).
+Qed.
+Print Assumptions C01_versatiles_block_in_file.
+
 (* PMTiles: the 127-byte header reads back to the fields it was written from (directory, metadata
    and tile-data ranges, counts, clustered flag, compressions, tile type, zoom range, bounds, centre) *)
 From VT Require Import Model.PMHeader Proofs.PMHeaderProofs.
@@ -176,3 +200,16 @@ Example C01_example_header :
   let h := mkH 32 2 0 14 4160749568 100 300 4294967295 66 120 1000 33 in
   hdr_wf h /\ firstn 16 (hdr_to_blob h) = [118; 101; 114; 115; 97; 116; 105; 108; 101; 115; 95; 118; 48; 50; 32; 2]%N.
 Proof. split; [unfold hdr_wf, format_codes, u32_max, u64_max; cbn; repeat split; try lia; tauto|vm_compute; reflexivity]. Qed.
+
+Example C01_example_block_in_file :
+  let slots := [Some [7; 7]; None; Some [7; 7]; Some [1; 2; 3]]%N in
+  let st := write_block slots in
+  let brotli := fun b : list N => (255 :: b)%N in
+  let unb := fun b : list N => match b with (255 :: r)%N => Some r | _ => None end in
+  let cidx := brotli (tidx_as_blob (w_index st)) in
+  let file := ([9; 9; 9] ++ w_data st ++ cidx ++ [4])%N in
+  w_data st = [7; 7; 1; 2; 3]%N /\
+  read_tile unb file 3 (3 + 5) (N.of_nat (length cidx)) 4 2 = Ok (Some [7; 7]%N) /\
+  read_tile unb file 3 (3 + 5) (N.of_nat (length cidx)) 4 1 = Ok None /\
+  read_tile unb file 3 (3 + 5) (N.of_nat (length cidx)) 5 1 = Err.
+Proof. repeat split; vm_compute; reflexivity. Qed.
